@@ -220,6 +220,7 @@ pub fn gen_corpus(out: &Path, produced_by: &str) -> Result<usize, String> {
         // 1. clean shutdown and 2. leftover write-ahead log (a second connection held open)
         for leftover in [false, true] {
             crate::world::begin_run(seed, start_us);
+            crate::world::set_numeric_ids(false);
             let mut w = World::new(seed, Backend::Sqlite, entry, page_size, n_clients, cfg, None).map_err(|e| format!("{e:#}"))?;
             let dir = w.store.dir.clone().unwrap();
             let foreign = if leftover {
@@ -262,6 +263,7 @@ pub fn gen_corpus(out: &Path, produced_by: &str) -> Result<usize, String> {
         // 3. crash images taken in the middle of the history
         if i % 2 == 0 {
             crate::world::begin_run(seed, start_us);
+            crate::world::set_numeric_ids(false);
             let mut w = World::new(seed, Backend::Sqlite, entry, page_size, n_clients, cfg, None).map_err(|e| format!("{e:#}"))?;
             let dir = w.store.dir.clone().unwrap();
             let foreign = if i % 4 == 0 { rusqlite::Connection::open(dir.join(DB_FILE)).ok() } else { None };
@@ -348,6 +350,8 @@ pub fn exec(plan: &CompatPlan) -> RunOut {
         }
     };
     crate::world::begin_run(plan.seed, exp.now_us + 1_000_000);
+    // the corpus was written with plain ids
+    crate::world::set_numeric_ids(false);
     let dir = fresh_dir("compat");
     for f in &exp.files {
         if let Err(e) = std::fs::copy(fdir.join("data").join(f), dir.join(f)) {
